@@ -35,8 +35,12 @@ Fixpoint repm3 {A B C} (R : A -> B -> C -> Prop) (xs : list (key * A)) (ys : lis
 (* [orep h ps j v fp]: in heap h the Go value v denotes the JSON value j; fp lists the ALLOCATED containers
    of v, each owned by exactly one parent (NoDup fp is required at the root); a container the allocator
    does not know has no allocated descendant (it may be shared freely: nothing ever writes it).
-   An allocated array is seen through its full header (offset 0, cap = size of the backing array) and the
-   cells beyond its length are nil, as make() and deleteEmpty leave them.
+   An allocated array is seen through a header with offset 0 and cap = size of the backing array; its length
+   may be smaller than the number of initialised cells and the cells beyond its length are ARBITRARY (an update
+   body may return a prefix slice .[:k] of an array the reduction owns: the hidden cells keep their stale
+   content).  The invariant used to say "the hidden cells are nil" (what make() and deleteEmpty leave); since
+   the in-place growth of updateArrayIndex clears the cells it exposes (fix 73ac0b6, [clear_exposed]) that
+   clause is not needed any more, and the theorems below hold for the weaker invariant.
    Defined by recursion on j, so a represented value is acyclic by construction. *)
 Fixpoint orep (h : heap) (ps : list ptr) (j : jv) (v : hval) (fp : list nat) {struct j} : Prop :=
   match j with
@@ -55,8 +59,7 @@ Fixpoint orep (h : heap) (ps : list ptr) (j : jv) (v : hval) (fp : list nat) {st
            | _, _, _ => False
            end) js (firstn len (skipn off cells)) fps /\
         ((~ aaddr ps a /\ concat fps = [] /\ fp = []) \/
-         (In (PArr a 0) ps /\ off = 0 /\ cap = length cells /\
-          Forall (eq HNull) (skipn len cells) /\ fp = a :: concat fps))
+         (In (PArr a 0) ps /\ off = 0 /\ cap = length cells /\ fp = a :: concat fps))
   | JObj jm =>
       exists a kvs fps,
         v = HMap a /\ nth_error h a = Some (OMap kvs) /\ ksorted kvs /\
